@@ -3,6 +3,7 @@ package checks
 import (
 	"context"
 	"fmt"
+	"strings"
 
 	"github.com/samber/ro"
 	"verif.local/harness/cat"
@@ -81,8 +82,8 @@ func c14Ops() []c14Op {
 	var ops []c14Op
 	for _, r := range cat.AllRows() {
 		r := r
-		if r.IntChain == nil || r.Has(cat.NoSubscribe) || r.Has(cat.Aggregate) {
-			continue
+		if r.IntChain == nil || r.Has(cat.NoSubscribe) || r.Has(cat.Aggregate) || strings.Contains(r.Name, "[spare cap]") {
+			continue // ([spare cap] rows: the same operators with another argument slice, C12's business)
 		}
 		switch r.Family {
 		case "Filter", "Skip", "SkipWhile", "SkipLast", "Distinct", "IgnoreElements", "Take", "TakeWhile", "Head", "First", "ElementAt", "ElementAtOrDefault", "Find", "MapErr", "FlatMap", "MergeMap", "Clamp", "StartWith", "Contains":
@@ -104,6 +105,21 @@ func c14Ops() []c14Op {
 		}},
 		{name: "MergeMap(->src)", chain: func(s ro.Observable[int]) ro.Observable[int] {
 			return ro.MergeMap(func(int) ro.Observable[int] { return s })(ro.Just(0))
+		}},
+		// a sibling source that completes, on its own goroutine, as soon as it has been subscribed: the
+		// operator is then still busy subscribing the never-ending source
+		{name: "Merge(completing sibling,src)", chain: func(s ro.Observable[int]) ro.Observable[int] { return ro.Merge(completingSibling(), s) }},
+		{name: "MergeMap(->completing sibling,src)", chain: func(s ro.Observable[int]) ro.Observable[int] {
+			sib := completingSibling()
+			return ro.MergeMap(func(i int) ro.Observable[int] {
+				if i == 0 {
+					return sib
+				}
+				return s
+			})(ro.Just(0, 1))
+		}},
+		{name: "CombineLatest2(completing sibling,src)|Map", chain: func(s ro.Observable[int]) ro.Observable[int] {
+			return ro.Map(func(t tup2T) int { return t.B })(ro.CombineLatest2(completingSibling(), s))
 		}},
 		{name: "Merge(src,Never)", chain: func(s ro.Observable[int]) ro.Observable[int] {
 			return ro.Merge(s, ro.Map(func(struct{}) int { return 0 })(ro.Never()))
@@ -137,6 +153,19 @@ func c14Ops() []c14Op {
 		{name: "Timeout(1h)", chain: func(s ro.Observable[int]) ro.Observable[int] { return ro.Timeout[int](3600 * 1000 * u)(s) }},
 	}
 	return append(ops, extra...)
+}
+
+// completingSibling is a hot source with a producer goroutine that emits 0 and completes right after the
+// source has been subscribed.
+func completingSibling() ro.Observable[int] {
+	src := h.NewSrc("sibling")
+	o, p := h.Pushed[int](src, h.Unsafe)
+	vrt.GoNamed("sibling", func() {
+		vrt.Point(vrt.OpUser, 0, func() bool { n, _, _, _ := src.Get(); return n > 0 })
+		p.Next(0)
+		p.Complete()
+	})
+	return o
 }
 
 func c14Case(op c14Op, tm terminator, n int) fw.Case { return c14CaseRacing(op, tm, n, false) }
